@@ -231,7 +231,7 @@ func describe(log []crashfs.Op, k int) string {
 func TestVerifC04Measure(t *testing.T) {
 	p := genProfile{maxSeries: 3, maxTimes: 6, maxBatches: 5, maxRows: 8, versions: []int64{1, 2, 3}}
 	verifkit.Run(t, verifkit.Spec[c04Case]{
-		Property: "C04", Unit: "measure_crash",
+		Property: "C04", Unit: "measure_crash", CrashReplay: true,
 		Rule: "a measure shard history of 1..5 acknowledged batches interleaved with flush / merge-memory-parts / merge(subset of file parts) executed once on a " +
 			"crash-logging file system (operations logged at the granularity of the local file system's durability contract; WriteAtomic and Write expand into " +
 			"their intermediate states); then for EVERY crash point k of the log (sampled for logs > 160 ops) two disk images - kill -9 (all completed operations) " +
